@@ -11,7 +11,7 @@ CLAIMED = {
          "Clamp/range/no-panic for every float32 bit pattern incl. NaN; monotonicity for all pairs; |N(x)-S*x| <= 0.5+s_N; encoders are LUT[N(x)] on both init paths and colour types use the right encoder; a package's encoder result does not change when the other packages' tables come into existence (all six initialisation orders, all x); all 3 x 66,048 encode-table entries within 0.5+s_T codes of the published OETF.",
          "Trusted: executor, solvers, IEEE-754 rounding model (|err| <= u|x|+eta, monotone) for the real-arithmetic parts, gc/amd64 float->int conversion model. Literal half-code reading is relaxed by the a-priori slacks of DESIGN 3.1.", "DESIGN.md 5 C02"),
  "C20": ("model_checking", "exact real arithmetic with rational functions (NRA) for algebra/inverse/primaries; bit-precise float64 queries for exact singularity",
-         "Matrix algebra equals the textbook definitions for all reals; M*Inverse(M)=Inverse(M)*M=I for |det|>=1e-3; generated primaries matrices map (1,1,1) to the white point and unit primaries to their chromaticities for all non-degenerate triangles (YY = 1) and, for the four built-in primary sets, for free luminances of the white point and the primaries; Inverse panics on zero/equal-column float64 matrices.",
+         "Matrix algebra equals the textbook definitions for all reals; M*Inverse(M)=Inverse(M)*M=I for |det|>=1e-3; generated primaries matrices map (1,1,1) to the white point and unit primaries to their chromaticities for all non-degenerate triangles (YY = 1) and, for the four built-in primary sets, for free luminances of the white point and the primaries, also when the same primaries are requested twice with different white points; Inverse panics on zero/equal-column float64 matrices.",
          "Trusted: executor, solvers, rounding budget for the real parts. Not machine-checked: non-singularity of generated matrices (inverse relation follows from the generic inverse theorem when Inverse returns); equal columns 0=2.", "DESIGN.md 5 C20"),
  "C03": ("model_checking", "symbolic execution of ToXYZ/ColorFromXYZ in real arithmetic with one rounding-error variable per float32 operation (signs resolved by interval analysis: linear arithmetic); ground checks of declared constants",
          "For all linear colours in [0,1]^3 and [-1,2]^3 and all four spaces: ToXYZ and ColorFromXYZ are within 1e-6..6e-6 of the reference matrix built independently from the declared chromaticities (and its inverse), both round trips return the input within 2e-6 (proportional bound on the wide box), declared chromaticities match the published ones, (1,1,1) and unit primaries map to the declared white and primaries within 1e-6.",
@@ -23,7 +23,7 @@ CLAIMED = {
          "Every metadata field is proved equal to the container specification's bytes by an unsat verdict over all values of every symbolic header/payload byte of the skeleton files; bounded by skeleton shape (<=2 ancillary chunks/segments, payloads <=5 bytes; PNG also with an iCCP chunk whose name has 1, 78 or 79 bytes).",
          "Trusted: go/ssa construction, the gosym executor (cross-validated natively on sampled path models each run), z3 4.8.12. Oracle is the PNG/JPEG/RIFF-WebP byte layout written in the harness, not DecodeConfig.", "DESIGN.md 5 C05"),
  "C06": ("model_checking", "bounded symbolic execution of the loaders on ICC-carrying skeletons with symbolic chunk numbers/totals/flags/payload bytes",
-         "Returned profile bytes are proved equal, byte for byte as bit-vector terms, to the specification-side assembly (ICC.1 Annex B order for JPEG with all chunk orders and damage classes as models of one harness; WebP ICCP payload incl. sizes around 4096; the exact compressed bytes handed to inflate for PNG), damaged sets give (nil,error) with metadata, absence gives (nil,nil).",
+         "Returned profile bytes are proved equal, byte for byte as bit-vector terms, to the specification-side assembly (ICC.1 Annex B order for JPEG with all chunk orders and damage classes as models of one harness, interleaved with a segment of any other marker; WebP ICCP payload incl. sizes around 4096; the exact compressed bytes handed to inflate for PNG), damaged sets give (nil,error) with metadata, absence gives (nil,nil).",
          "Trusted: executor, z3; inflate is a stub (what goes in and that its output is returned untouched is what is proved). Bounds: <=3 (thorough 4) JPEG chunks, listed sizes.", "DESIGN.md 5 C06"),
  "C07": ("model_checking", "bounded symbolic execution of the four Load functions with a symbolic-content, scheduled, fault-injecting source (go/ssa -> SMT-LIB2, z3)",
          "On every feasible path over N arbitrary symbolic bytes (every truncation, every fault position, three delivery schedules) and over every truncation of skeleton files, the drained stream equals the delivered source bytes and surfaces the injected error; bounded by N (PNG 28, JPEG 14, WebP 40, auto 12 in quick); plus, through autometa, inputs longer than every internal buffer (signature + 4090..9000 bytes of ancillary data per format, whole and cut at 4097).",
@@ -59,7 +59,7 @@ CLAIMED = {
          "Alpha passes through decode and encode bit-identically for all 65536/256 alphas; every encoder writes a float32 alpha as 0 below 0, the maximum from 1 up (+Inf and huge values included) and round-half-up(alpha*max) inside, stated independently of the quantiser; constructors return exactly A/max and zero colour for transparent premultiplied/generic pixels; opaque constructors agree; linearised premultiplied channels stay <= alpha for every r<=a (symbolic r) for the explored alphas, given the exhaustively checked table lemma T16[r]<=r/65535.",
          "Trusted: executor, solvers, IEEE rounding model for the real-arithmetic part; quick tier explores 1033 alphas (thorough: 8201). ColorFromNRGBA on a transparent pixel keeps the colour (not claimed).", "DESIGN.md 5 C14"),
  "C15": ("model_checking", "bounded symbolic execution of the three conversion helpers against the real image/draw.Draw executed symbolically; all pixel bytes symbolic; bit-vector equality per output byte",
-         "For 15 source types x 3 (thorough 8) geometries x 6 parallelism values, with every byte of pixel storage symbolic, the helper's Pix/Stride/Rect equal those produced by draw.Draw(Src) for all pixel contents at once; identity for same-type input; input unmodified.",
+         "For 15 source types x 3 (thorough 8) geometries x 6 parallelism values, with every byte of pixel storage symbolic, the helper's Pix/Stride/Rect equal those produced by draw.Draw(Src) for all pixel contents at once; identity for same-type input; input (pixel storage and, for paletted images, the palette) unmodified.",
          "Trusted: executor incl. function-level merging and if-conversion (cross-validated natively on sampled models), z3, image/draw of Go 1.23.5 as the oracle; worker goroutines executed sequentially.", "DESIGN.md 5 C15"),
  "C16": ("model_checking", "bounded symbolic execution of icc.ProfileReader (go/ssa -> SMT-LIB2 bit-vectors, z3)",
          "All 2^1024 headers carrying 'acsp' are covered by one symbolic 128-byte header; each Header field is a bit-vector identity against ICC.1:2010 Table 17 offsets; a header with any other signature is shown to be rejected.",
